@@ -73,8 +73,9 @@ pub fn to_spherical(cart: Cartesian) -> Spherical {
     let z = cart.z();
 
     let theta = Radians::new_unchecked(y.atan2(x));
-    let r = (x * x + y * y + z * z).sqrt();
-    let phi = Radians::new_unchecked((z / r).acos());
+    // atan2 of the distance from the polar axis keeps full precision near the poles, where acos(z / r)
+    // loses half of the digits (z / r is within one ulp of +-1 there)
+    let phi = Radians::new_unchecked((x * x + y * y).sqrt().atan2(z));
 
     Spherical::new(theta, phi)
 }
